@@ -81,8 +81,9 @@ impl Monitor for M {
                     .exhaustive("enum2 x every pair of right-boundary rules (a,R) (b,R) (none | KRN | 8 forms inserting a), boundary character R outside the alphabet, all words of length <= 4"),
             );
         }
-        v.push(Phase::new("random", tier.pick(20_000, 2_000_000)).batch(64));
+        v.push(Phase::new("random", tier.pick(60_000, 2_000_000)).batch(64));
         v.push(Phase::new("corpus", corpus_fonts().len() as u64).batch(1));
+        v.push(Phase::new("known", 1).batch(1));
         v
     }
 
@@ -92,7 +93,8 @@ impl Monitor for M {
             ("handbuilt:loop_programs_reported", 9),
             ("programs:loop_free_compared", tier.pick(60_000, 5_000_000)),
             ("programs:with_loop_reported", tier.pick(30_000, 5_000_000)),
-            ("programs:loop_free_with_terminating_re-entry", tier.pick(500, 50_000)),
+            ("programs:loop_free_with_terminating_re-entry", tier.pick(50, 2_000)),
+            ("programs:loop_free_with_shared_dependency", tier.pick(3_000, 300_000)),
             ("pairs:diverging_agreed_by_both_models", tier.pick(50_000, 5_000_000)),
             ("pairs:terminating_multi_step", tier.pick(50_000, 5_000_000)),
             ("runs:compared", tier.pick(10_000_000, 1_000_000_000)),
@@ -112,7 +114,7 @@ impl Monitor for M {
             ("ops:form_6_/LIG>", tier.pick(100_000, 10_000_000)),
             ("ops:form_7_/LIG/>", tier.pick(100_000, 10_000_000)),
             ("ops:form_11_/LIG/>>", tier.pick(100_000, 10_000_000)),
-            ("corpus:fonts_compared", 40),
+            ("corpus:fonts_compared", 20),
             ("corpus:runs_compared", 1_000_000),
         ]
     }
@@ -129,6 +131,7 @@ impl Monitor for M {
             "enum2_right" => enum_case(idx, EnumKind::Right, obs),
             "random" => random_case(rng, obs),
             "corpus" => corpus_case(idx as usize, obs),
+            "known" => known_case(obs),
             other => obs.inconclusive(format!("unknown phase {other}")),
         }
     }
@@ -414,6 +417,10 @@ struct Model<'a> {
     diverging: BTreeSet<(lk::Left, u8)>,
     on_cycle: BTreeSet<(lk::Left, u8)>,
     multi_step_pairs: u64,
+    /// terminating pairs whose isolated evaluation applies a LIG step to the same pair twice
+    reentry_pairs: u64,
+    /// terminating pairs that are a dependency of two or more other rule pairs (diamonds)
+    shared_dependencies: u64,
     max_steps: u64,
 }
 
@@ -430,6 +437,8 @@ fn build_model<'a>(prog: &'a lk::Prog, design: i32, obs: &mut Obs) -> ModelBuild
     let mut pe = lk::PairEval::new(prog);
     let mut diverging = BTreeSet::new();
     let mut multi = 0;
+    let mut reentry = 0;
+    let mut used_by: BTreeMap<(lk::Left, u8), u32> = BTreeMap::new();
     let mut max_steps = 0;
     let pairs = prog.rule_pairs();
     // (b) first: it also tells how long the terminating evaluations are
@@ -482,6 +491,12 @@ fn build_model<'a>(prog: &'a lk::Prog, design: i32, obs: &mut Obs) -> ModelBuild
                 if *lig_steps >= 2 {
                     multi += 1;
                 }
+                if st.pair_revisited {
+                    reentry += 1;
+                }
+                for dep in st.lig_pairs.iter().skip(1) {
+                    *used_by.entry(*dep).or_insert(0) += 1;
+                }
                 max_steps = max_steps.max(*lig_steps);
             }
         }
@@ -494,6 +509,8 @@ fn build_model<'a>(prog: &'a lk::Prog, design: i32, obs: &mut Obs) -> ModelBuild
         diverging,
         on_cycle,
         multi_step_pairs: multi,
+        reentry_pairs: reentry,
+        shared_dependencies: used_by.values().filter(|n| **n >= 2).count() as u64,
         max_steps,
     })
 }
@@ -634,6 +651,8 @@ fn check_program(
             }
         }
         obs.count("programs:with_loop_reported");
+        let key = format!("programs:with_loop_reported[{}]", obs.phase());
+        obs.count(&key);
         if model.diverging.iter().any(|(l, _)| l.is_none()) {
             obs.count("programs:loop_through_left_boundary");
         }
@@ -654,7 +673,9 @@ fn check_program(
     }
     // ---- loop-free: outputs
     let mut revisit = false;
-    let mut cnt = [0u64; 9];
+    let mut cnt = [0u64; 12];
+    let mut info_sample: Option<(String, bool, Option<u8>, String, String)> = None;
+    let mut info_sample2: Option<(String, bool, Option<u8>, String, String)> = None;
     let mut forms = [0u64; 12];
     for spec in specs {
         let m = match model.run(&spec.word, spec.left_boundary, spec.rb_override) {
@@ -714,6 +735,28 @@ fn check_program(
             obs.violation("run:characters-and-originals-do-not-spell-the-word", detail("plain characters plus ligature originals must spell the input word"));
             return out;
         }
+        if level == Level::Sequence {
+            // information only (guard G): how often TeX's node bookkeeping is reproduced as well
+            if r == m.nodes {
+                cnt[9] += 1;
+            } else {
+                let same_originals = r.iter().zip(m.nodes.iter()).all(|(a, b)| match (a, b) {
+                    (RNode::Lig { original: x, .. }, RNode::Lig { original: y, .. }) => x == y,
+                    _ => true,
+                });
+                if same_originals {
+                    cnt[10] += 1;
+                    if info_sample.is_none() {
+                        info_sample = Some((fmt_word(&spec.word), spec.left_boundary, spec.rb_override, fmt_nodes(&r), fmt_nodes(&m.nodes)));
+                    }
+                } else {
+                    cnt[11] += 1;
+                    if info_sample2.is_none() {
+                        info_sample2 = Some((fmt_word(&spec.word), spec.left_boundary, spec.rb_override, fmt_nodes(&r), fmt_nodes(&m.nodes)));
+                    }
+                }
+            }
+        }
         if level == Level::Node && r != m.nodes {
             obs.violation("run:node-level-differs-on-hand-built-program", detail("originals per ligature node / boundary flags differ from TeX's main loop"));
             return out;
@@ -758,7 +801,15 @@ fn check_program(
                               "direct_interpretation": fmt_nodes(&m.nodes), "lig_steps": st.lig_steps}));
         }
     }
-    const NAMES: [&str; 9] = [
+    if obs.verbose {
+        if let Some(x) = &info_sample {
+            println!("INFO flags-only node difference: {x:?}");
+        }
+        if let Some(x) = &info_sample2 {
+            println!("INFO originals node difference: {x:?}");
+        }
+    }
+    const NAMES: [&str; 12] = [
         "runs:with_ligature",
         "runs:with_kern",
         "runs:ligature_with_empty_original",
@@ -768,6 +819,9 @@ fn check_program(
         "runs:right_boundary_consumed",
         "runs:right_boundary_override",
         "runs:with_8+_lig_steps",
+        "info:runs_where_TeX_node_bookkeeping_also_equal",
+        "info:runs_where_only_boundary_flags_differ_from_TeX_nodes",
+        "info:runs_where_lig_ptr_originals_differ_from_TeX_nodes",
     ];
     for (n, c) in NAMES.iter().zip(cnt.iter()) {
         if *c > 0 {
@@ -781,8 +835,14 @@ fn check_program(
     }
     obs.add("runs:compared", out.runs);
     obs.count("programs:loop_free_compared");
-    if revisit {
+    let key = format!("programs:loop_free_compared[{}]", obs.phase());
+    obs.count(&key);
+    let _ = revisit;
+    if model.reentry_pairs > 0 {
         obs.count("programs:loop_free_with_terminating_re-entry");
+    }
+    if model.shared_dependencies > 0 {
+        obs.count("programs:loop_free_with_shared_dependency");
     }
     out.ok = true;
     out.nontrivial = model.multi_step_pairs > 0;
@@ -922,48 +982,66 @@ fn corpus_fonts() -> Vec<std::path::PathBuf> {
     out
 }
 
-struct LoadedFont {
-    file: tfm::File,
-    prog: lk::Prog,
-    design: i32,
-    chars: Vec<u8>,
+/// Known finding: `compiler::compile` treats an instruction with skip_byte > 128 (an
+/// unconditional stop, e.g. the boundary-character carrier at location 0 or the bchar_label
+/// carrier at the end of a TFM lig table) that a chain walks into as a real LIG/KRN step built
+/// from its op_byte/remainder ("phantom ligature", a re-implementation of a TFtoPL quirk). TeX
+/// §1039 never lets such an instruction match.
+pub const PHANTOM_FINDING: &str = "C05-phantom-ligature-from-stop-instruction";
+
+/// A raw `lang::Program` converted to the model's form.
+struct Converted {
+    /// TeX's reading: an instruction with skip_byte > 128 inside a chain matches nothing and stops
+    tex: lk::Prog,
+    /// Deviation model for [`PHANTOM_FINDING`]: the same program with exactly that one rule
+    /// replaced by what the code does today. `Some` iff the trigger predicate holds: some chain
+    /// (of a character or of the left boundary) reaches such an instruction.
+    phantom: Option<lk::Prog>,
 }
 
-/// Deserialise a TFM with the repository's reader (not the code under test here) and convert its
-/// raw lig/kern program into the model's form. `Err(reason)`: the font is not one TeX would load
-/// (§573 checks), or cannot be read.
-fn load_font(path: &std::path::Path) -> Result<LoadedFont, String> {
-    let bytes = std::fs::read(path).map_err(|e| format!("unreadable: {e}"))?;
-    let file = match catch(|| tfm::File::deserialize(&bytes).0) {
-        Ok(Ok(f)) => f,
-        Ok(Err(_)) => return Err("not a TFM file".into()),
-        Err(_) => return Err("TFM reader panicked (C10's business)".into()),
-    };
-    let design = file.header.design_size.0;
-    if !fa::design_size_is_legal(design) {
-        return Err("design size outside TeX's range".into());
-    }
-    let chars: Vec<u8> = file.char_dimens.iter().filter(|(_, d)| d.width_index.valid().is_some()).map(|(c, _)| c.0).collect();
-    let exists = |c: u8| chars.binary_search(&c).is_ok();
-    let lp = &file.lig_kern_program;
+/// `Err(reason)`: TeX §573 would reject the font.
+fn convert_program(
+    lp: &lang::Program,
+    kerns: &[FixWord],
+    packed_entrypoints: &[(u8, usize)],
+    exists: &dyn Fn(u8) -> bool,
+) -> Result<Converted, String> {
     let nl = lp.instructions.len();
     let bchar = lp.right_boundary_char.map(|c| c.0);
-    let mut prog = lk::Prog {
+    let mut tex = lk::Prog {
         right_boundary: bchar,
         ..Default::default()
     };
+    let mut phantom_instrs: Vec<lk::Instr> = vec![];
     // TeX §573: every instruction of the table is checked
     for (k, ins) in lp.instructions.iter().enumerate() {
+        let mut phantom_op = None;
         let op = match ins.operation {
             lang::Operation::EntrypointRedirect(target, _) => {
                 if target as usize >= nl {
-                    return Err("§573: redirect address outside the lig/kern table".into());
+                    return Err("§573: stop/redirect address outside the lig/kern table".into());
                 }
+                // what the code under test makes of it: lig_kern_operation_from_bytes(op_byte, remainder)
+                let [op_byte, remainder] = target.to_be_bytes();
+                phantom_op = Some(if op_byte >= 128 {
+                    let i = (op_byte as usize - 128) * 256 + remainder as usize;
+                    lk::Op::Kern(kerns.get(i).map_or(0, |k| k.0))
+                } else {
+                    lk::Op::Lig {
+                        code: if lk::LIG_CODES.contains(&op_byte) { op_byte } else { 0 },
+                        insert: remainder,
+                    }
+                });
                 lk::Op::Stop
             }
-            lang::Operation::Kern(_) => return Err("unexpected inline kern in a TFM program".into()),
+            lang::Operation::Kern(k) => {
+                if !fa::fix_word_is_storable(k.0) {
+                    return Err("§571: kern is not a storable fix_word".into());
+                }
+                lk::Op::Kern(k.0)
+            }
             lang::Operation::KernAtIndex(i) => {
-                let Some(kern) = file.kerns.get(i as usize) else {
+                let Some(kern) = kerns.get(i as usize) else {
                     return Err("§573: kern index outside the kern table".into());
                 };
                 if !fa::fix_word_is_storable(kern.0) {
@@ -991,33 +1069,158 @@ fn load_font(path: &std::path::Path) -> Result<LoadedFont, String> {
                 }
             }
         }
-        prog.instrs.push(lk::Instr { skip: if op == lk::Op::Stop { None } else { ins.next_instruction }, right: ins.right_char.0, op });
+        let skip = if op == lk::Op::Stop { None } else { ins.next_instruction };
+        tex.instrs.push(lk::Instr { skip, right: ins.right_char.0, op });
+        phantom_instrs.push(lk::Instr { skip, right: ins.right_char.0, op: phantom_op.unwrap_or(op) });
     }
     // entry points: lig_kern_start, through a redirect if the first instruction is one (§1039)
-    for (c, e) in file.lig_kern_entrypoints() {
-        if !exists(c.0) {
+    for (c, e) in packed_entrypoints {
+        if !exists(*c) {
             continue;
         }
-        let e = e as usize;
-        let Some(first) = lp.instructions.get(e) else {
+        let Some(first) = lp.instructions.get(*e) else {
             return Err("§573: lig/kern start outside the table".into());
         };
         let start = match first.operation {
             lang::Operation::EntrypointRedirect(t, _) => t as usize,
-            _ => e,
+            _ => *e,
         };
         if start >= nl {
             return Err("§573: lig/kern start outside the table".into());
         }
-        prog.entry.insert(c.0, start);
+        tex.entry.insert(*c, start);
     }
     if let Some(e) = lp.left_boundary_char_entrypoint {
-        if e as usize >= nl {
-            return Err("bchar_label outside the lig/kern table".into());
+        // TeX §576: a bchar_label >= nl means "no left boundary program"
+        if (e as usize) < nl {
+            tex.left_entry = Some(e as usize);
         }
-        prog.left_entry = Some(e as usize);
     }
-    Ok(LoadedFont { file, prog, design, chars })
+    // trigger predicate: some chain reaches an instruction with skip_byte > 128
+    let mut starts: Vec<usize> = tex.entry.values().copied().collect();
+    starts.extend(tex.left_entry);
+    let mut triggered = false;
+    for s in starts {
+        let mut k = s;
+        while let Some(ins) = tex.instrs.get(k) {
+            if ins.op == lk::Op::Stop {
+                triggered = true;
+                break;
+            }
+            match ins.skip {
+                Some(n) => k = k + n as usize + 1,
+                None => break,
+            }
+        }
+    }
+    let phantom = triggered.then(|| lk::Prog {
+        instrs: phantom_instrs,
+        entry: tex.entry.clone(),
+        left_entry: tex.left_entry,
+        right_boundary: bchar,
+    });
+    Ok(Converted { tex, phantom })
+}
+
+struct LoadedFont {
+    file: tfm::File,
+    conv: Converted,
+    design: i32,
+    chars: Vec<u8>,
+}
+
+/// Deserialise a TFM with the repository's reader (not the code under test here) and convert its
+/// raw lig/kern program into the model's form. `Err(reason)`: the font is not one TeX would load
+/// (§573 checks), or cannot be read.
+fn load_font(path: &std::path::Path) -> Result<LoadedFont, String> {
+    let bytes = std::fs::read(path).map_err(|e| format!("unreadable: {e}"))?;
+    let file = match catch(|| tfm::File::deserialize(&bytes).0) {
+        Ok(Ok(f)) => f,
+        Ok(Err(_)) => return Err("not a TFM file".into()),
+        Err(_) => return Err("TFM reader panicked (C10's business)".into()),
+    };
+    let design = file.header.design_size.0;
+    if !fa::design_size_is_legal(design) {
+        return Err("§568: design size outside TeX's range".into());
+    }
+    let chars: Vec<u8> = file.char_dimens.iter().filter(|(_, d)| d.width_index.valid().is_some()).map(|(c, _)| c.0).collect();
+    let exists = |c: u8| chars.binary_search(&c).is_ok();
+    let mut eps: Vec<(u8, usize)> = file.lig_kern_entrypoints().into_iter().map(|(c, e)| (c.0, e as usize)).collect();
+    eps.sort_unstable();
+    let conv = convert_program(&file.lig_kern_program, &file.kerns, &eps, &exists)?;
+    Ok(LoadedFont { file, conv, design, chars })
+}
+
+struct Mismatch {
+    signature: &'static str,
+    detail: Value,
+}
+
+struct FontStats {
+    runs: u64,
+    loop_reported: bool,
+}
+
+/// Compare what the real code did with one model of the font. `Err(None)`: inconclusive
+/// (already reported).
+fn compare_font(
+    name: &str,
+    model: &Model,
+    n_errors: usize,
+    compiled: &CompiledProgram,
+    words: &[Vec<u8>],
+    obs: &mut Obs,
+) -> Result<FontStats, Option<Mismatch>> {
+    if (n_errors > 0) != !model.diverging.is_empty() {
+        return Err(Some(Mismatch {
+            signature: if n_errors > 0 { "corpus:loop-reported-but-every-pair-terminates" } else { "corpus:loop-not-reported" },
+            detail: json!({"font": name, "errors_reported": n_errors, "pairs_that_never_terminate": model.diverging.len()}),
+        }));
+    }
+    if n_errors > 0 {
+        return Ok(FontStats { runs: 0, loop_reported: true });
+    }
+    let mut runs = 0u64;
+    for w in words {
+        for lb in [true, false] {
+            let m = match model.run(w, lb, None) {
+                Ok(m) => m,
+                Err(e) => {
+                    obs.inconclusive(format!("{e} (font {name})"));
+                    return Err(None);
+                }
+            };
+            let r = match run_real(compiled, w, lb, None) {
+                Ok(r) => r,
+                Err(p) => {
+                    obs.repo_panic(&p, json!({"what": "run_with_options", "font": name, "word": fmt_word(w)}));
+                    return Err(None);
+                }
+            };
+            runs += 1;
+            if !r.iter().map(|n| n.item()).eq(m.nodes.iter().map(|n| n.item())) {
+                return Err(Some(Mismatch {
+                    signature: "corpus:glyph-kern-sequence-differs",
+                    detail: json!({"font": name, "word": fmt_word(w), "left_boundary": lb, "compiled_run": fmt_nodes(&r), "direct_interpretation": fmt_nodes(&m.nodes)}),
+                }));
+            }
+            let spelled: Vec<u32> = r
+                .iter()
+                .flat_map(|n| match n {
+                    RNode::Char(c) => vec![*c],
+                    RNode::Lig { original, .. } => original.clone(),
+                    RNode::Kern(_) => vec![],
+                })
+                .collect();
+            if !spelled.iter().copied().eq(w.iter().map(|b| *b as u32)) {
+                return Err(Some(Mismatch {
+                    signature: "corpus:characters-and-originals-do-not-spell-the-word",
+                    detail: json!({"font": name, "word": fmt_word(w), "left_boundary": lb, "compiled_run": fmt_nodes(&r)}),
+                }));
+            }
+        }
+    }
+    Ok(FontStats { runs, loop_reported: false })
 }
 
 fn corpus_case(idx: usize, obs: &mut Obs) {
@@ -1028,16 +1231,16 @@ fn corpus_case(idx: usize, obs: &mut Obs) {
     let name = path.file_name().unwrap().to_string_lossy().to_string();
     let mut font = match load_font(path) {
         Ok(f) => f,
-        Err(_) => {
-            obs.skip("corpus font TeX would not load (or unreadable)");
+        Err(reason) => {
+            obs.skip(&format!("corpus font outside TeX's domain: {reason}"));
             return;
         }
     };
-    if font.prog.instrs.is_empty() {
+    if font.conv.tex.instrs.is_empty() {
         obs.count("corpus:fonts_without_lig_kern_program");
         return;
     }
-    let model = match build_model(&font.prog, font.design, obs) {
+    let model = match build_model(&font.conv.tex, font.design, obs) {
         ModelBuild::Ok(m) => m,
         ModelBuild::TooLong => return obs.skip("pair evaluation longer than the harness bound (4000 steps / 2000 items)"),
         ModelBuild::Disagree => return,
@@ -1050,19 +1253,7 @@ fn corpus_case(idx: usize, obs: &mut Obs) {
         Ok(r) => r,
         Err(p) => return obs.repo_panic(&p, json!({"what": "compile_from_tfm_file", "font": name})),
     };
-    if (n_errors > 0) != !model.diverging.is_empty() {
-        obs.violation(
-            if n_errors > 0 { "corpus:loop-reported-but-every-pair-terminates" } else { "corpus:loop-not-reported" },
-            json!({"font": name, "errors": n_errors, "diverging_pairs": model.diverging.len()}),
-        );
-        return;
-    }
-    if n_errors > 0 {
-        obs.count("corpus:fonts_with_loop_reported");
-        return;
-    }
-    // all pairs of existing characters, and each single character, left boundary on and off
-    let mut runs = 0u64;
+    // each single character, all pairs of existing characters, and triples around rule pairs
     let chars = font.chars.clone();
     let mut words: Vec<Vec<u8>> = chars.iter().map(|c| vec![*c]).collect();
     for a in &chars {
@@ -1070,8 +1261,7 @@ fn corpus_case(idx: usize, obs: &mut Obs) {
             words.push(vec![*a, *b]);
         }
     }
-    // plus the words reachable through rules: triples a b c where (a,b) has a rule
-    for (l, r, _) in font.prog.rule_pairs() {
+    for (l, r, _) in font.conv.tex.rule_pairs() {
         if let Some(l) = l {
             if chars.binary_search(&r).is_ok() {
                 for c in chars.iter().step_by(7) {
@@ -1081,47 +1271,42 @@ fn corpus_case(idx: usize, obs: &mut Obs) {
             }
         }
     }
-    for w in &words {
-        for lb in [true, false] {
-            let m = match model.run(w, lb, None) {
-                Ok(m) => m,
-                Err(e) => return obs.inconclusive(format!("{e} (font {name})")),
-            };
-            let r = match run_real(&compiled, w, lb, None) {
-                Ok(r) => r,
-                Err(p) => return obs.repo_panic(&p, json!({"what": "run_with_options", "font": name, "word": fmt_word(w)})),
-            };
-            runs += 1;
-            if !r.iter().map(|n| n.item()).eq(m.nodes.iter().map(|n| n.item())) {
-                obs.violation(
-                    "corpus:glyph-kern-sequence-differs",
-                    json!({"font": name, "word": fmt_word(w), "left_boundary": lb, "compiled_run": fmt_nodes(&r), "direct_interpretation": fmt_nodes(&m.nodes)}),
-                );
-                return;
+    match compare_font(&name, &model, n_errors, &compiled, &words, obs) {
+        Ok(st) => {
+            if st.loop_reported {
+                obs.count("corpus:fonts_with_loop_reported");
+            } else {
+                obs.add("corpus:runs_compared", st.runs);
+                obs.count("corpus:fonts_compared");
+                obs.add("corpus:rule_pairs", font.conv.tex.rule_pairs().len() as u64);
+                if font.conv.phantom.is_some() {
+                    obs.count("corpus:fonts_with_trigger_of_phantom_finding_but_no_visible_deviation");
+                }
+                if obs.wants_sample() {
+                    obs.sample(json!({"font": name, "characters": chars.len(), "rule_pairs": font.conv.tex.rule_pairs().len(), "runs": st.runs}));
+                }
             }
-            let spelled: Vec<u32> = r
-                .iter()
-                .flat_map(|n| match n {
-                    RNode::Char(c) => vec![*c],
-                    RNode::Lig { original, .. } => original.clone(),
-                    RNode::Kern(_) => vec![],
-                })
-                .collect();
-            if !spelled.iter().copied().eq(w.iter().map(|b| *b as u32)) {
-                obs.violation(
-                    "corpus:characters-and-originals-do-not-spell-the-word",
-                    json!({"font": name, "word": fmt_word(w), "left_boundary": lb, "compiled_run": fmt_nodes(&r)}),
-                );
-                return;
+            obs.nontrivial(&("corpus", &name));
+        }
+        Err(None) => {}
+        Err(Some(mis)) => {
+            // attribute to the known finding only if the trigger holds and the deviation model
+            // predicts exactly what the code did
+            let explained = match &font.conv.phantom {
+                Some(ph) => match build_model(ph, font.design, obs) {
+                    ModelBuild::Ok(dev) => compare_font(&name, &dev, n_errors, &compiled, &words, obs).is_ok(),
+                    _ => false,
+                },
+                None => false,
+            };
+            if explained {
+                obs.known(PHANTOM_FINDING, json!({"first_deviation_from_TeX": mis.detail, "as": mis.signature,
+                    "note": "a lig/kern chain of this font walks into an instruction with skip_byte > 128; the deviation model (that instruction acts as the LIG/KRN step its op_byte/remainder spell) reproduces every run"}));
+                obs.count("corpus:fonts_deviating_as_known_finding");
+            } else {
+                obs.violation(mis.signature, mis.detail);
             }
         }
-    }
-    obs.add("corpus:runs_compared", runs);
-    obs.count("corpus:fonts_compared");
-    obs.add("corpus:rule_pairs", font.prog.rule_pairs().len() as u64);
-    obs.nontrivial(&("corpus", &name));
-    if obs.wants_sample() {
-        obs.sample(json!({"font": name, "characters": chars.len(), "rule_pairs": font.prog.rule_pairs().len(), "runs": runs}));
     }
 }
 
@@ -1133,7 +1318,7 @@ fn font_case(c: &hand::FontCase, obs: &mut Obs) {
         Ok(f) => f,
         Err(e) => return obs.inconclusive(format!("hand-built font case: {} cannot be used: {e}", c.font)),
     };
-    let model = match build_model(&font.prog, font.design, obs) {
+    let model = match build_model(&font.conv.tex, font.design, obs) {
         ModelBuild::Ok(m) => m,
         _ => return obs.inconclusive(format!("hand-built font case: no model for {}", c.font)),
     };
@@ -1155,6 +1340,79 @@ fn font_case(c: &hand::FontCase, obs: &mut Obs) {
             }
         }
         Err(p) => obs.repo_panic(&p, json!({"font": c.font, "word": c.word})),
+    }
+}
+
+// ------------------------------------------------------------------------------------------
+// phase: known (one fixed reproducer per known finding, through the public `compile`)
+
+/// Knuth-style minimal program (cf. corpus/originals/phantom-ligature-bug-minimal-repro-2):
+///   0: (LABEL 0x00) (/LIG/ 0x01 0x02)          continue with 1
+///   1: skip_byte 253, next_char 0x02, op_byte 0, remainder 0     = unconditional stop
+/// TeX: (0,1) -> 0 2 1, then (0,2): instruction 1 cannot match -> terminates, output 0 2 1.
+/// The code treats instruction 1 as "LIG 0x02 0x00": (0,2) -> 0, then (0,1) again: a loop is reported.
+fn known_case(obs: &mut Obs) {
+    let lp = lang::Program {
+        instructions: vec![
+            lang::Instruction {
+                next_instruction: Some(0),
+                right_char: Char(1),
+                operation: lang::Operation::Ligature {
+                    char_to_insert: Char(2),
+                    post_lig_operation: lang::PostLigOperation::RetainBothMoveNowhere,
+                    post_lig_tag_invalid: false,
+                },
+            },
+            lang::Instruction {
+                next_instruction: None,
+                right_char: Char(2),
+                operation: lang::Operation::EntrypointRedirect(0, true),
+            },
+        ],
+        left_boundary_char_entrypoint: None,
+        right_boundary_char: None,
+        passthrough: Default::default(),
+    };
+    let design = 10 << 20;
+    let conv = match convert_program(&lp, &[], &[(0, 0)], &|c| c <= 2) {
+        Ok(c) => c,
+        Err(e) => return obs.inconclusive(format!("known reproducer rejected: {e}")),
+    };
+    let Some(phantom) = conv.phantom.as_ref() else {
+        return obs.inconclusive("known reproducer does not satisfy its own trigger predicate");
+    };
+    let (ModelBuild::Ok(tex), ModelBuild::Ok(dev)) = (build_model(&conv.tex, design, obs), build_model(phantom, design, obs)) else {
+        return obs.inconclusive("known reproducer: no model");
+    };
+    if !tex.diverging.is_empty() || dev.diverging.is_empty() {
+        return obs.inconclusive("known reproducer: the models do not separate TeX's rule from the deviation");
+    }
+    let entrypoints: HashMap<Char, u16> = [(Char(0), 0u16)].into_iter().collect();
+    let real = catch(|| {
+        let (compiled, errors) = CompiledProgram::compile(&lp, FixWord(design), &[], entrypoints);
+        (compiled, errors.len())
+    });
+    let (compiled, n_errors) = match real {
+        Ok(r) => r,
+        Err(p) => return obs.repo_panic(&p, json!({"what": "compile (known reproducer)"})),
+    };
+    let words = words_up_to(&[0, 1, 2], 3);
+    obs.nontrivial("known-phantom");
+    match compare_font("<known reproducer>", &tex, n_errors, &compiled, &words, obs) {
+        Ok(_) => obs.count("known:phantom_reproducer_behaves_like_TeX"),
+        Err(None) => {}
+        Err(Some(mis)) => {
+            if compare_font("<known reproducer>", &dev, n_errors, &compiled, &words, obs).is_ok() {
+                obs.known(
+                    PHANTOM_FINDING,
+                    json!({"program": fmt_prog(&conv.tex), "deviation": mis.detail, "as": mis.signature,
+                           "TeX": "pair (0x00,0x01) terminates: /LIG/ gives 0 2 1, instruction 1 (skip_byte 253) never matches",
+                           "code": "instruction 1 is run as LIG 0x02 -> 0x00, so (0,1) -> 0 2 1 -> 0 1 -> ... : an infinite loop is reported"}),
+                );
+            } else {
+                obs.violation(mis.signature, mis.detail);
+            }
+        }
     }
 }
 
@@ -1458,7 +1716,7 @@ fn calibrate(obs: &mut Obs) {
                 continue;
             }
         };
-        if let ModelBuild::Ok(m) = build_model(&font.prog, font.design, obs) {
+        if let ModelBuild::Ok(m) = build_model(&font.conv.tex, font.design, obs) {
             match m.run(c.word.as_bytes(), true, None) {
                 Ok(r) if fmt_nodes(&r.nodes) == c.want => obs.count("calibration:tex_verified_font_runs_reproduced"),
                 Ok(r) => obs.inconclusive(format!(
